@@ -5,7 +5,7 @@ patch=$1; shift
 . /verif/env.sh
 tmp=$(mktemp -d /tmp/seedtest.XXXXXX)
 cp /verif/known_findings.json $tmp/
-git -C /repo apply "$patch" || { echo "PATCH DOES NOT APPLY"; rm -rf $tmp; exit 3; }
+git -C /repo apply "$(realpath "$patch")" || { echo "PATCH DOES NOT APPLY"; rm -rf $tmp; exit 3; }
 trap 'git -C /repo checkout -- . ; rm -rf $tmp' EXIT
 for p in "$@"; do
   /verif/bin/lp2pcheck -verif $tmp -tier ${TIER:-quick} $p | grep -v "^  C\|^VIOLATION" | cut -c1-500
